@@ -21,6 +21,10 @@ package main
 //   error          Option String: none = nil, some "ErrX" = an error that wraps the package variable ErrX = errors.New(…);
 //                  in a function that builds &T{ErrX, off} (T a struct {error; int} of the package whose pointer is an
 //                  error): Option (String × BitVec 64), some ("ErrX", off) = a *T with these two fields
+//   hash.Hash      (a local `h := c.f.New()`, f a crypto.Hash field of the receiver) List (BitVec 8): the bytes written so far;
+//                  h.Sum(nil) is a PARAMETER f_sum of the translated function applied to them (loops_rec.go)
+//   encoding.BinaryMarshaler   List (BitVec 8) × Option String: the result of its MarshalBinary(); a slice of them is the list
+//                  of these pairs, read-only (loops_rec.go)
 //
 // Statements: x := e, var x T [= e], x = e, x op= e, x++/x--, a[i] = e, _ = a[c] (bounds-check hint), if/else without
 // init, return (anywhere, see below), `for i := range a`, `for _, v := range a`, `for i := range n` (int),
@@ -35,8 +39,10 @@ package main
 // binary + - * & | ^ &^ << >> == != < <= > >= && ||, x / c and x % c for a non-zero constant c, a[i], len, append,
 // make, slice literals, conversions between the integer types and []byte(string), calls of functions
 // of the same package translated earlier in the same translateLoopFuncs call (unless they can panic or
-// write into a parameter), math/bits.TrailingZeros, fmt.Errorf("…%w…", …, ErrX, …), nil and package-level
+// write into a parameter), math/bits.TrailingZeros, math/bits.Len, fmt.Errorf("…%w…", …, ErrX, …), nil and package-level
 // errors.New variables as error values, &T{ErrX, off}.
+// A function that calls itself is a definition by structural recursion on an additional parameter `fuel : Nat`; none then
+// means panic or fuel exhausted (loops_rec.go: recHeaderText states all of stage 7).
 //
 // Two shapes of output.  A function in which nothing can panic and every return is the last statement of the
 // function or of an else-less `if` in tail position is translated as a plain value, exactly as before (range loops
@@ -258,6 +264,9 @@ const (
 	kErrOpt              // error in a function that returns both plain and positioned errors: (name, optional offset)
 	kRune                // rune / int32: BitVec 32 read as two's complement
 	kInt8ss              // [][]int8 (only as a parameter: rows are read as x[j][lo:] arguments, assigned by make, or written through callees)
+	kHash                // a local of type hash.Hash: the bytes written to it so far (loops_rec.go)
+	kMarsh               // encoding.BinaryMarshaler: the result (bytes, error) of its MarshalBinary() (loops_rec.go)
+	kMarshs              // []encoding.BinaryMarshaler (read-only: indexed, measured, windows as arguments)
 )
 
 func (k lkind) lean() string {
@@ -270,8 +279,12 @@ func (k lkind) lean() string {
 		return "BitVec 32"
 	case kBool:
 		return "Bool"
-	case kBytes, kString, kInt8s:
+	case kBytes, kString, kInt8s, kHash:
 		return "List (BitVec 8)"
+	case kMarsh:
+		return "(List (BitVec 8) × Option String)"
+	case kMarshs:
+		return "List (List (BitVec 8) × Option String)"
 	case kInts, kUints:
 		return "List (BitVec 64)"
 	case kErr:
@@ -374,6 +387,7 @@ type ownFacts struct {
 	declLoop map[types.Object]ast.Node
 	loops    []ast.Node
 	resliced map[types.Object]bool // x = x[k:] somewhere
+	marshRes map[types.Object]bool // assigned the bytes of a MarshalBinary() result somewhere (read-only: may share memory with the element)
 }
 
 type loopTr struct {
@@ -412,11 +426,20 @@ type loopTr struct {
 	errFrom       map[types.Object]*fnSig      // error variables: the callee whose result they hold (for errors.As)
 	inErrLit      int                          // inside &T{…} (a fmt.Errorf there is the wrapped error, not a plain error of the function)
 	loopPre       string                       // bindings to put in front of the body of the next loop (rangeRunes)
-	spareCap      map[types.Object]bool // local slices that were cut with an upper bound: they have capacity beyond their length
+	spareCap      map[types.Object]bool        // local slices that were cut with an upper bound: they have capacity beyond their length
 	capSens       map[types.Object]bool        // slice parameters that are sliced with an upper bound (Go checks it against the capacity)
 	absDeps       map[string]string            // abstract methods called: parameter name -> Lean type (loops_call.go)
 	assumedNoWrap bool                         // a loop header was accepted under the !nowrap assumption (for the doc comment)
 	hoisted       map[*ast.CallExpr]hoistedVal // calls that may panic, bound in front of the statement that contains them (loops_call.go)
+	// stage 7 (loops_rec.go): recursion, hash.Hash locals, encoding.BinaryMarshaler values
+	selfFn     *types.Func                      // the function being translated
+	recursive  bool                             // it calls itself: the translation recurses on an additional parameter `fuel`
+	selfSig    *fnSig                           // its provisional signature, for the calls of itself
+	hashNewSel map[*ast.SelectorExpr]*types.Var // the selectors `c.f` of the calls `c.f.New()` (f a crypto.Hash field of the receiver)
+	hashFields map[types.Object]*types.Var      // hash.Hash locals: the field whose New() made them
+	hashDeps   map[string]string                // the parameters f_sum this function introduces: name -> field name
+	selfArgs   []selfArg                        // slice arguments of the calls of itself (for the capacity caveat)
+	capCaveat  []string                         // parameters for which that caveat applies (for the doc comment)
 }
 
 func (t *loopTr) fail(n ast.Node, format string, a ...interface{}) {
@@ -438,6 +461,12 @@ func (t *loopTr) kindOf(ty types.Type, at ast.Node) lkind {
 	if n, ok := ty.(*types.Named); ok && n.Obj().Pkg() != nil && n.Obj().Pkg().Path() == "strings" && n.Obj().Name() == "Builder" {
 		return kBytes // a local strings.Builder: the bytes written so far (see loops_call.go)
 	}
+	switch {
+	case isNamedType(ty, "hash", "Hash"):
+		return kHash // a local hash.Hash: the bytes written so far (see loops_rec.go)
+	case isNamedType(ty, "encoding", "BinaryMarshaler"):
+		return kMarsh // the result of its MarshalBinary() (see loops_rec.go)
+	}
 	switch u := ty.Underlying().(type) {
 	case *types.Basic:
 		switch u.Kind() {
@@ -457,6 +486,9 @@ func (t *loopTr) kindOf(ty types.Type, at ast.Node) lkind {
 			return kString
 		}
 	case *types.Slice:
+		if isNamedType(u.Elem(), "encoding", "BinaryMarshaler") {
+			return kMarshs
+		}
 		if k, ok := sliceKind(u.Elem()); ok {
 			return k
 		}
@@ -584,6 +616,7 @@ func (t *loopTr) collectFacts() {
 		lastRef:  map[types.Object]token.Pos{},
 		declLoop: map[types.Object]ast.Node{},
 		resliced: map[types.Object]bool{},
+		marshRes: map[types.Object]bool{},
 	}
 	t.facts = f
 	ast.Inspect(t.fd.Body, func(n ast.Node) bool {
@@ -606,6 +639,13 @@ func (t *loopTr) collectFacts() {
 		case *ast.AssignStmt:
 			if o, _ := t.resliceOf(s); o != nil {
 				f.resliced[o] = true
+			}
+			if len(s.Rhs) == 1 && len(s.Lhs) == 2 && t.isMarshalCall(s.Rhs[0]) {
+				if id, ok := unparen(s.Lhs[0]).(*ast.Ident); ok && id.Name != "_" {
+					if o := t.objOf(id); o != nil {
+						f.marshRes[o] = true
+					}
+				}
 			}
 			for i, l := range s.Lhs {
 				switch l := unparen(l).(type) {
@@ -721,6 +761,9 @@ func (t *loopTr) assignedIn(n ast.Node) (plain, indexed map[types.Object]bool) {
 				indexed[o] = true
 			}
 			if o, m := t.builderCall(s); o != nil && m != "String" {
+				plain[o] = true
+			}
+			if o, m := t.hashCall(s); o != nil && m != "Sum" {
 				plain[o] = true
 			}
 		case *ast.IncDecStmt:
